@@ -793,3 +793,9 @@ def _eval_guard(e, env):
         if f in ('np.isclose', 'math.isclose', 'numpy.isclose') and len(a) == 2:
             return abs(a[0] - a[1]) <= Fraction(1, 10**6)
     raise AnalysisError(f'C19.R10: cannot interpret the reset test of MultiStep.predict: {key}')
+
+
+@rule('C19', 'C19.R14', 'two controllers built from one controller_params dict do not influence each other: a controller never rewrites its own parameters after construction (the parameter object holds the caller\'s lists by reference), outside the tabled sites (shared with C20.R12)', floor=4)
+def r14(ctx, R):
+    from . import c20
+    c20.r12(ctx, R)
